@@ -12,7 +12,8 @@ EXPLANATION = (
     "split position from a search on the same string, length arithmetic on in-memory sizes) or by a reasoned exemption with a checked fingerprint; otherwise it is a violation; "
     "D2 the internal-consistency panics of Summary are unreachable because C07's kind-consistency and who-writes rules hold (re-evaluated here); "
     "D3 termination: every loop is driven by a finite std iterator whose None edge leaves the loop, or is the registered tokeniser loop whose every back-edge path advances the cursor by a positive amount; "
-    "every recursion cycle is registered with a decreasing measure; input-controlled recursion depth / fan-out is reported; guard rules also cover cuts at counted positions (position, take_while().count()), at the first match of a byte predicate that cannot hit a continuation byte, right after a one-byte match, after a leading one-byte delimiter, constant cuts under an established minimum length, ordered ranges below the length, n-1 after n != 0; read loops that continue only after consuming input and loops over array literals are classified; fingerprints are taken over canonical terms (ranges, element access, loop element == closure element)")
+    "every recursion cycle is registered with a decreasing measure; input-controlled recursion depth / fan-out is reported; guard rules also cover cuts at counted positions (position, take_while().count()), at the first match of a byte predicate that cannot hit a continuation byte, right after a one-byte match, after a leading one-byte delimiter, constant cuts under an established minimum length, ordered ranges below the length, n-1 after n != 0; read loops that continue only after consuming input and loops over array literals are classified; fingerprints are taken over canonical terms (ranges, element access, loop element == closure element)"
+    " PANIC-CONTRACT SummaryStream::write answers Ok(input.len()) (C09's D1-CONSUMED, shared): write_all panics when write() reports more than it was given.")
 NOT_DECIDED = [
     "panics inside dependencies for the arguments the crate passes (glob, indexmap, serde, tar, RustCrypto assumed total except the listed std APIs)",
     "stack exhaustion and running time as quantities: only their structural cause is reported",
@@ -1044,6 +1045,7 @@ def required_rules_failing(ctx, prop, rules):
         from check import Ctx
         mod = importlib.import_module("rules." + prop.lower())
         sub = Ctx(prop, ctx.tier, ctx.fx)
+        sub.no_share = True
         sub.inline_set = ctx.inline_set
         sub.desugar = bool(getattr(mod, "DESUGAR", False))
         try:
@@ -1258,6 +1260,7 @@ def run(ctx):
     import rules.c07 as c07
     from check import Ctx
     sub = Ctx("C07", ctx.tier, fx)
+    sub.no_share = True
     sub.inline_set = ctx.inline_set
     sub.desugar = bool(getattr(c07, "DESUGAR", False))
     c07.run(sub)
@@ -1273,6 +1276,10 @@ def run(ctx):
     ctx.floor("PANIC-INTERNAL", "summary", "internal panic sites", len(summary_internal), 5)
 
     termination(ctx)
+
+    # ---- PANIC-CONTRACT: std::io::Write::write_all panics (slice index out of range) when write() reports more bytes than it was handed:
+    #      SummaryStream::write must answer Ok(input.len()) (C09's D1-CONSUMED verdicts, shared)
+    share_rules(ctx, "C09", ("D1-CONSUMED",), "PANIC-CONTRACT", "<summary::SummaryStream as std::io::Write>::write", 2)
 
 
 def termination(ctx):
